@@ -186,7 +186,35 @@ def _inline_one(P, f, raw, keep, depth):
             callid = ev.get('id')
             # copy coalescing: `x = helper(...)` where the helper returns its own local r (one return): let the folded
             # body compute directly into x, as the code it was extracted from did - provided no argument mentions x
-            if ret_expr is not None and ret_expr.get('k') == 'var' and ret_expr.get('name', '').endswith(sfx) and ret_expr['name'][:-len(sfx)] not in params:
+            retbase = ret_expr['name'][:-len(sfx)] if (ret_expr is not None and ret_expr.get('k') == 'var' and ret_expr.get('name', '').endswith(sfx)) else None
+            if retbase is not None and retbase in params:
+                # `x = helper(..., x, ...)` where the helper steps its own copy of x and returns it: work on x itself
+                k_ = params.index(retbase)
+                a_ = args[k_] if k_ < len(args) else None
+                tgt = None
+                for ob in [after] + raw['blocks']:
+                    for oe in ob['events']:
+                        if oe.get('k') == 'store' and oe.get('op') == '=' and isinstance(oe.get('rhs'), dict) and oe['rhs'].get('k') == 'callref' and oe['rhs'].get('ev') == callid \
+                                and isinstance(oe.get('lhs'), dict) and oe['lhs'].get('k') == 'var' and oe['lhs'].get('sc') in ('local', 'param'):
+                            tgt = (ob, oe)
+                if tgt is not None and isinstance(a_, dict) and a_.get('k') == 'var' and a_.get('name') == tgt[1]['lhs']['name'] \
+                        and not any(y.get('k') == 'var' and y.get('name') == a_['name'] for j_, a2 in enumerate(args) if j_ != k_ for y in walk(a2)):
+                    x = tgt[1]['lhs']
+                    rname = ret_expr['name']
+
+                    def to_x2(y):
+                        if y.get('k') == 'var' and y.get('name') == rname:
+                            z = dict(x)
+                            return z
+                        return None
+                    for nb in new_blocks:
+                        nb['events'] = [_map_event(e2, to_x2) for e2 in nb['events']]
+                        if nb.get('term') and isinstance(nb['term'].get('cond'), dict):
+                            nb['term'] = dict(nb['term'], cond=_subst(nb['term']['cond'], to_x2))
+                    b['events'] = [e2 for e2 in b['events'] if not (e2.get('synthetic') and e2.get('k') == 'store' and e2['lhs'].get('name') == rname)]
+                    ret_expr = dict(x)
+                    tgt[0]['events'] = [e2 for e2 in tgt[0]['events'] if e2 is not tgt[1]]
+            elif retbase is not None:
                 tgt = None
                 for ob in [after] + raw['blocks']:
                     for oe in ob['events']:
